@@ -35,6 +35,11 @@ def run(res, only=None):
     core.replay_bin(res, "tok", e, allc, env_extra={"HX_PROP": "C07"}, tag="layout", expect_ops=["mat:read:display", "mat:read:debug"])
     # entry-wise matrix and component-wise quaternion arithmetic on random bit patterns: the correctly rounded result in every build
     core.record_and_validate(res, "mat", allc, draws=1 if res.tier == "quick" else 20, chunks=2 if res.tier == "quick" else 6, expect_kinds=("f1", "f2"))
+    # the slerp of every backend (the SSE2 one has its own range reduction and polynomial sine) satisfies the same Chebyshev relations of
+    # Trace_Rel, also for integer factors far outside [0, 1] where the angle is reduced modulo a turn: equal to one specification, hence
+    # to each other, within the relation's tolerance
+    core.record_and_validate(res, "rel", ss, draws=4 if res.tier == "quick" else 40, module="Trace_Rel", chunks=2 if res.tier == "quick" else 6,
+                             expect_kinds=("rel",), ops=["slerp8", "slerp_int"])
     # (2) random (off-lattice) chains of the SIMD-backed types: TLC-generated programs executed in every build with the same
     #     seeds; traces are compared by TLC: bit for bit across CPU features, within re-association slack SIMD vs scalar
     pr = os.path.join(wd, "chains.out")
